@@ -273,6 +273,47 @@ Proof.
   exists fl. split; [exact Hc|]. eapply kinv_perm; eassumption.
 Qed.
 
+
+(** the state after any history satisfies the invariant *)
+Lemma seq_hist_kinv os s h rs : seq_hist kinit [] os = Some (s, h, rs) -> kinv s h.
+Proof.
+  intros H. destruct (seq_hist_spec os kinit [] kinv_init) as (s' & h' & rs' & E & Hi & _).
+  rewrite E in H. inversion H; subst. exact Hi.
+Qed.
+
+Theorem seq_history_total os : exists s h rs, seq_hist kinit [] os = Some (s, h, rs) /\ length rs = length os.
+Proof.
+  destruct (seq_hist_spec os kinit [] kinv_init) as (s' & h' & rs' & E & _ & Hl). eauto 6.
+Qed.
+
+Theorem seq_history_distinct os s h rs : seq_hist kinit [] os = Some (s, h, rs) ->
+  NoDup h /\ (forall k, In k h -> in_range k /\ knext s k = LIVE) /\
+  exists fl, chain (knext s) (kfree s) fl /\ Permutation (fl ++ h) (zrange 0 1024).
+Proof.
+  intros H. pose proof (seq_hist_kinv os s h rs H) as Hi.
+  destruct (kinv_distinct s h Hi) as (H1 & H2 & H3). split; [exact H1|]. split; [|exact H3].
+  intros k Hk. split; [apply H2; exact Hk|]. destruct Hi as (fl & _ & _ & _ & Hl). apply Hl. exact Hk.
+Qed.
+
+Theorem seq_history_create os s h rs d : seq_hist kinit [] os = Some (s, h, rs) ->
+  (length h = 1024%nat /\ seq_op s h (Create d) = Some (s, h, -1)) \/
+  ((length h < 1024)%nat /\ exists k s', seq_op s h (Create d) = Some (s', k :: h, k) /\
+     in_range k /\ ~ In k h /\ kdtor s' k = d /\ (forall k', k' <> k -> kdtor s' k' = kdtor s k')).
+Proof.
+  intros H. destruct (seq_create_spec s h d (seq_hist_kinv os s h rs H)) as [G|[G1 (k & s' & G2 & G3 & G4 & G5 & G6 & _)]];
+    [left; exact G|right]. split; [exact G1|]. exists k, s'. tauto.
+Qed.
+
+Theorem seq_history_delete os s h rs k : seq_hist kinit [] os = Some (s, h, rs) ->
+  (In k h /\ exists s', seq_op s h (Delete k) = Some (s', remove1 k h, kdtor s k) /\ ~ In k (remove1 k h)) \/
+  (~ In k h /\ seq_op s h (Delete k) = Some (s, h, ERR)).
+Proof.
+  intros H. pose proof (seq_hist_kinv os s h rs H) as Hi.
+  destruct (seq_delete_spec s h k Hi) as [[G1 (s' & G2 & _)]|G]; [left|right; exact G].
+  split; [exact G1|]. exists s'. split; [exact G2|].
+  destruct (kinv_distinct s h Hi) as (Hnd & _). apply remove1_nodup. exact Hnd.
+Qed.
+
 (** ** the interleaving system *)
 Lemma nth_set_nth_same l : forall t p q, nth_error l t = Some q -> nth_error (set_nth l t p) t = Some p.
 Proof.
@@ -693,4 +734,33 @@ Proof.
   split; [vm_compute; reflexivity|]. split; [vm_compute; reflexivity|].
   split; [vm_compute; reflexivity|]. split; [vm_compute; reflexivity|].
   intros H. apply distinctb_spec in H. vm_compute in H. discriminate.
+Qed.
+
+Theorem distinct_concurrent_refuted : ~ (forall s, reachable is_init step s -> NoDup (held s)).
+Proof.
+  intros H. destruct aba_witness as (Hr & _ & _ & _ & _ & Hn). apply Hn. apply H. exact Hr.
+Qed.
+
+(** what the guard removes from the real system: exactly the successful push of
+    a key that a create holds as the operand of its pending CAS *)
+Theorem guard_exact s t : 
+  (gstep s (t, Tick) = None /\ step s (t, Tick) <> None) <->
+  exists k h f, nth_error (threads s) t = Some (DCas k h f) /\ kfree (ks s) = h /\
+                exists u n d, nth_error (threads s) u = Some (ACas k n d).
+Proof.
+  unfold gstep, aba_window. split.
+  - intros [Hg Hs]. destruct (nth_error (threads s) t) as [p|] eqn:Ht; [|contradiction Hs; unfold step; rewrite Ht; reflexivity].
+    destruct p; try (rewrite Hg in Hs; contradiction Hs; reflexivity).
+    destruct ((kfree (ks s) =? h) && existsb (at_cas_of k) (threads s)) eqn:E;
+      [|rewrite Hg in Hs; contradiction Hs; reflexivity].
+    apply andb_true_iff in E. destruct E as [E1 E2]. apply Z.eqb_eq in E1.
+    exists k, h, f. split; [reflexivity|]. split; [exact E1|].
+    apply existsb_exists in E2. destruct E2 as (q & Hq & Eq). apply In_nth_error in Hq. destruct Hq as (u & Hu).
+    destruct q; cbn in Eq; try discriminate. apply Z.eqb_eq in Eq. subst ke. eauto.
+  - intros (k & h & f & Ht & Hf & u & n & d & Hu). rewrite Ht.
+    assert (E : (kfree (ks s) =? h) && existsb (at_cas_of k) (threads s) = true).
+    { apply andb_true_iff. split; [apply Z.eqb_eq; exact Hf|]. apply existsb_exists.
+      exists (ACas k n d). split; [eapply nth_error_In; exact Hu|cbn; apply Z.eqb_refl]. }
+    rewrite E. split; [reflexivity|]. unfold step. rewrite Ht. cbn [running tick].
+    apply Z.eqb_eq in Hf. rewrite Hf. discriminate.
 Qed.
